@@ -15,8 +15,8 @@ import (
 
 func init() {
 	core.Register(&core.Check{
-		ID: "C35",
-		Rule: "cases: PRNG-generated valid multi-file schemas (base, accepted) and, for each file, (a) reflection-driven random edits of the FileDescriptorProto (any field of any nested descriptor message set to a random / boundary / type-confused value, elements duplicated, removed, reordered or swapped between lists, indices made negative or out of range, names emptied or made non-identifiers, options flipped) - NewFile must return without panicking under both AllowUnresolvable settings; (b) one targeted injection per class of definite schema error (44 injectors: duplicate names/numbers, invalid/overlapping ranges, reserved names/numbers, field in extension range, malformed map entries and groups, empty/non-consecutive oneofs, proto3-forbidden constructs, unresolvable references, packed/enum/presence/default combinations, bad indices and names) - NewFile must reject while the untouched base is accepted; distinct = distinct mutated protos; non-trivial = every case (all differ from the base)",
+		ID:     "C35",
+		Rule:   "cases: PRNG-generated valid multi-file schemas (base, accepted) and, for each file, (a) reflection-driven random edits of the FileDescriptorProto (any field of any nested descriptor message set to a random / boundary / type-confused value, elements duplicated, removed, reordered or swapped between lists, indices made negative or out of range, names emptied or made non-identifiers, options flipped) - NewFile must return without panicking under both AllowUnresolvable settings; (b) one targeted injection per class of definite schema error (44 injectors: duplicate names/numbers, invalid/overlapping ranges, reserved names/numbers, field in extension range, malformed map entries and groups, empty/non-consecutive oneofs, proto3-forbidden constructs, unresolvable references, packed/enum/presence/default combinations, bad indices and names) - NewFile must reject while the untouched base is accepted; distinct = distinct mutated protos; non-trivial = every case (all differ from the base)",
 		Assume: []string{"each injector's precondition scan guarantees that the injected construct is one of the property's definite errors (injectors that find no applicable site are skipped and counted)"},
 		Batches: func(tier string) []core.Batch {
 			var bs []core.Batch
@@ -28,7 +28,7 @@ func init() {
 		Gates: func(tier string) map[string]int64 {
 			return map[string]int64{"bases_accepted": 300, "random_edits": 20000, "random_edit_rejected": 3000, "random_edit_accepted": 1000, "injections": 5000, "inj:duplicate-field-number": 50, "inj:non-consecutive-oneof": 50, "inj:map-entry-three-fields": 20, "inj:unresolvable-field-type": 50, "inj:group-in-proto3": 10, "inj:field-number-in-extension-range": 20}
 		},
-		Run:  runC35,
+		Run: runC35,
 	})
 }
 
@@ -213,7 +213,9 @@ func pickMsg(r *core.Rand, ms []*descriptorpb.DescriptorProto, pred func(*descri
 }
 
 func isP3(p *descriptorpb.FileDescriptorProto) bool { return p.GetSyntax() == "proto3" }
-func isP2(p *descriptorpb.FileDescriptorProto) bool { return p.GetSyntax() == "" || p.GetSyntax() == "proto2" }
+func isP2(p *descriptorpb.FileDescriptorProto) bool {
+	return p.GetSyntax() == "" || p.GetSyntax() == "proto2"
+}
 
 func maxNum(m *descriptorpb.DescriptorProto) int32 {
 	mx := int32(0)
@@ -611,7 +613,9 @@ var c35Injectors = []injector{
 		if m == nil {
 			return false
 		}
-		f := plainField(r, m, func(f *descriptorpb.FieldDescriptorProto) bool { return f.OneofIndex == nil && f.GetLabel() == descriptorpb.FieldDescriptorProto_LABEL_OPTIONAL })
+		f := plainField(r, m, func(f *descriptorpb.FieldDescriptorProto) bool {
+			return f.OneofIndex == nil && f.GetLabel() == descriptorpb.FieldDescriptorProto_LABEL_OPTIONAL
+		})
 		if f == nil {
 			return false
 		}
@@ -828,7 +832,9 @@ var c35Injectors = []injector{
 		if m == nil {
 			return false
 		}
-		f := plainField(r, m, func(f *descriptorpb.FieldDescriptorProto) bool { return f.OneofIndex == nil && f.GetOptions().GetFeatures() == nil })
+		f := plainField(r, m, func(f *descriptorpb.FieldDescriptorProto) bool {
+			return f.OneofIndex == nil && f.GetOptions().GetFeatures() == nil
+		})
 		if f == nil {
 			return false
 		}
